@@ -398,7 +398,22 @@ func c09MsgCase(c *h.Ctx, k *c09Case, stats map[string]int) {
 				c.Fail("llmnr.DecodeMessage", aspect+":rejected", what+": "+derr.Error(), s2)
 			}
 		default:
-			d := c09Diff(k.M, dm)
+			// the decoded message must not reference its input: the library's own Server.Serve and Client.readLoop decode
+			// every datagram from ONE reused buffer and hand the message to another goroutine
+			before := c09Diff(k.M, dm)
+			scratch := append([]byte(nil), data...)
+			if len(before) == 0 {
+				var dm2 *llmnr.Message
+				if p2, _ := c09Run(func() { dm2, _ = llmnr.DecodeMessage(scratch) }); p2 == "" && dm2 != nil {
+					for i := range scratch {
+						scratch[i] ^= 0x5A
+					}
+					if after := c09Diff(k.M, dm2); len(after) > 0 {
+						c.Fail("llmnr.DecodeMessage", pre+"decoded-message-references-input", fmt.Sprintf("%s: after the input buffer was overwritten the decoded message differs in %v", what, after), s2)
+					}
+				}
+			}
+			d := before
 			if pre != "" && len(d) > 0 {
 				c.Fail("llmnr.DecodeMessage", pre+aspect, fmt.Sprintf("%s: differs in %v", what, d), s2)
 				return
